@@ -343,4 +343,10 @@ open Primaite.Gen.RequestCore in
 `failure`; sub-managers are invoked with the plain list; `_RequestOptions` is `list` with only `__getitem__` overridden
 (out-of-range → `RequestOptionsError`, a subclass of `IndexError`). -/
 theorem C05_gen_missing_options_answered : leafAnswersMissingOptions = true := by decide
+
+open Primaite.Gen.RequestCore in
+/-- (Gen) no request handler of the simulator copies or slices its options into a plain sequence before reading them
+(`list(request)`, `tuple(request)`, `request[a:b]`, `[*request]`, `request + …`, `copy`): the options VIEW handed to a handler
+is what the handler reads, so `C05_FullAnswered`'s `optionsError` case is the only way a missing option surfaces. -/
+theorem C05_gen_no_options_view_bypass : optionViewBypasses = [] := by decide
 end Primaite.Request
